@@ -223,8 +223,14 @@ callback(&input[..consumed]);
 fully_consumed = <fc_parse>;
 buf.consume(consumed);
 """
-REFILL = ("if input_reader.is_empty() { chunk = response.chunk().await.map_err(std::io::Error::other)?.unwrap_or_default(); "
-          "slice = &chunk[..]; input_reader = &mut slice; }")
+# parse_async's refill block: the form since the F-C10c fix (empty chunks are skipped), or the form before it (so that a
+# scratch checkout of an older commit still translates).  What the block DOES is modelled in coq/C10/Stream.v and pinned to
+# this text by translate/c10_stream.py; here it only has to be recognised and cut out.
+REFILL = ["if input_reader.is_empty() { chunk = loop { match response.chunk().await.map_err(std::io::Error::other)? { "
+          "Some(bytes) if bytes.is_empty() => continue, next => break next.unwrap_or_default(), } }; "
+          "slice = &chunk[..]; input_reader = &mut slice; }",
+          "if input_reader.is_empty() { chunk = response.chunk().await.map_err(std::io::Error::other)?.unwrap_or_default(); "
+          "slice = &chunk[..]; input_reader = &mut slice; }"]
 PROLOGUE = ("let mut buf = circular::Buffer::with_capacity(INITIAL_BUFFER_CAPACITY); let mut parser = SymbolParser::new(); "
             "let mut fully_consumed = false; let mut tried_to_grow = false; let mut in_panic_recovery = false; "
             "let mut just_finished_recovering = false; let mut total_consumed = 0u64; loop {")
@@ -250,9 +256,14 @@ def loop_of(fn_marker, refill, prologue, what):
         k = next((i for i, (x, y) in enumerate(zip(flat, pro)) if x != y), min(len(flat), len(pro)))
         die("%s: the declarations before `loop` changed near `%s` (expected `%s`)" % (what, flat[max(0, k - 30):k + 40], pro[max(0, k - 30):k + 40]))
     loop = strip(block_after(body, "let mut total_consumed", "loop {"))
-    rx = template_regex(LOOP_TPL.replace("@REFILL@", refill))
-    m = rx.fullmatch(loop)
+    m = None
+    for alt in ([refill] if isinstance(refill, str) else refill):
+        m = template_regex(LOOP_TPL.replace("@REFILL@", alt)).fullmatch(loop)
+        if m:
+            refill = alt
+            break
     if not m:
+        refill = refill if isinstance(refill, str) else refill[0]
         # find how far the template matches, for the message
         tpl_flat = re.sub(r"<[a-z_0-9]+>", "\x00", re.sub(r"\s+", "", LOOP_TPL.replace("@REFILL@", refill)))
         lo = 0
